@@ -3,6 +3,7 @@
 generated ones: the statement is printed by Coq from the proved lemma and closed with `exact @lemma`. Idempotent."""
 import subprocess, re, os, sys
 COQ = os.path.join(os.path.dirname(os.path.dirname(os.path.abspath(__file__))), "coq")
+EXTRA = {"C04": ["Ctpg.Model.Driver", "Ctpg.Proofs.UtilsDriverLink"]}
 BASE = ["Ctpg.Base.Prelude", "Ctpg.Model.Grammar", "Ctpg.Model.Containers", "Ctpg.Model.Utils", "Ctpg.Proofs.ContainersBits", "Ctpg.Proofs.ContainersVec", "Ctpg.Proofs.ContainersSort", "Ctpg.Proofs.UtilsCorrect"]
 def coq_type(imports, lemma):
     src = "".join(f"Require Import {m}.\n" for m in imports) + "Set Printing Width 100000.\nSet Printing Depth 100000.\n" + f"Check @{lemma}.\n"
@@ -33,7 +34,8 @@ ADD = {
          ("C03_dec_digit_class", "is_dec_digit_spec", "utils::is_dec_digit = '0'..'9'")],
  "C04": [("C04_nul_is_never_whitespace", "find_char_nul", "skip_whitespace asks utils::find_char(byte, table): a NUL byte is never found in a NUL-terminated table - embedded NULs are not skipped"),
          ("C04_whitespace_test_is_membership_in_the_table", "find_char_member", "for every other byte, found <-> the byte is one of the table's characters"),
-         ("C04_find_char_reads_nothing_behind_the_terminator", "find_char_spec", "the result depends only on the string up to its terminator")],
+         ("C04_find_char_reads_nothing_behind_the_terminator", "find_char_spec", "the result depends only on the string up to its terminator"),
+         ("C04_the_driver_models_whitespace_test_is_the_real_one", "is_ws_is_find_char", "LINK: the driver model's is_ws (membership in the list the options select) is exactly 'find_char(byte, NUL-terminated table) found something', for every byte and every option set - so the theorems about skipping (C04, C10, C18) speak about the real test")],
  "C09": [("C09_byte_names_in_messages", "char_name_spec", "utils::char_names (the byte printed by 'Unexpected character'): printable bytes 33..126 are themselves, every other byte (space, control, >= 0x80) is \\\\xHH in upper-case hex"),
          ("C09_byte_names_identify_the_byte", "char_name_injective", "distinct bytes have distinct names")],
  "C17": [("C17_printable_class", "is_printable_spec", "utils::is_printable on signed chars: exactly 0x20..0x7e - bytes >= 0x80 are negative chars and are refused as raw pattern bytes"),
@@ -45,9 +47,10 @@ for pid, thms in ADD.items():
     text = open(path).read()
     marker = "(* ---- namespace stdex / utils below the model (appended by tools/append_props.py) *)"
     if marker in text: text = text[:text.index(marker)].rstrip("\n") + "\n"
-    L = ["", marker] + [f"Require Import {m}." for m in BASE]
+    imports = BASE + EXTRA.get(pid, [])
+    L = ["", marker] + [f"Require Import {m}." for m in imports]
     for name, lemma, comment in thms:
-        ty = coq_type(BASE, lemma)
+        ty = coq_type(imports, lemma)
         L.append(f"\n(* {comment} *)\nTheorem {name} :\n  {ty}.\nProof. exact @{lemma}. Qed.\nPrint Assumptions {name}.")
     open(path, "w").write(text + "\n".join(L) + "\n")
     r = subprocess.run(f"cd {COQ} && timeout 900 coqc -Q . Ctpg Props/Properties_{pid}.v", shell=True, capture_output=True, text=True)
